@@ -123,6 +123,14 @@ fn main() {
             emit_search(r);
         }
         "probe-empty" => { println!("{:?}", c05::empty_tree(&rt)); }
+        "probe-stray" => {
+            for cache in [false, true] { for k in 0..200i64 {
+                match rt.block_on(akd::vx_export::c10_stray_writes::<akd_core::WhatsAppV1Configuration>(k, cache)) {
+                    Ok((failed, b, a, same, ver)) => { if !failed { println!("cache={cache} k={k}: no fault hit"); break; } if a != b || !same || !ver { println!("cache={cache} k={k}: failed publish; records {b} -> {a}; final state matches reference: {same}; lookups verify: {ver}"); } }
+                    Err(e) => { println!("k={k}: {e}"); break; }
+                }
+            } }
+        }
         "probe-c12b" => {
             for cache in [false, true] {
                 let r = rt.block_on(akd::vx_export::c12_overtaken_on_clone::<akd_core::WhatsAppV1Configuration>(cache));
